@@ -35,6 +35,29 @@ BIN = "/tmp/replay_scratch/target/release/search"
 
 # (name, file, old, new, [properties expected to FIND it], occurrence index)
 MUTS = [
+    ("Tarjan drops the on_stack test (cross arcs into finished components lower the low-link)", "algo/tarjan.rs",
+     "if self.on_stack.contains(&v) {", "if true || self.on_stack.contains(&v) {", ["C09"], 0),
+    ("Tarjan pop loop breaks before inserting the root", "algo/tarjan.rs",
+     "                let _ = self.on_stack.remove(&v);\n                let _ = component.insert(v);\n\n                if u == v {\n                    break;\n                }",
+     "                let _ = self.on_stack.remove(&v);\n                if u == v {\n                    break;\n                }\n                let _ = component.insert(v);", ["C09"], 0),
+    ("Tarjan ignores the low-link of a finished child", "algo/tarjan.rs",
+     ".insert(u, self.low_link[&u].min(self.low_link[&v]));", ".insert(u, self.low_link[&u]);", ["C09"], 0),
+    ("Tarjan never removes popped vertices from on_stack", "algo/tarjan.rs",
+     "                let _ = self.on_stack.remove(&v);\n", "", ["C09"], 0),
+    # (equivalent mutants, correctly not reported: dropping `blocked.remove(&vertex)` /
+    #  `b_set.clear()` between start vertices - Johnson's invariant leaves both empty -
+    #  and replacing the blocked test by `!stack.contains(&w)`, a plain simple-path DFS)
+    ("Johnson75 does not record failed vertices in the B-lists", "algo/johnson_75.rs",
+     "let _ = unsafe { (*b_ptr.add(w)).insert(v) };", "let _ = w;", ["C10"], 0),
+    ("Johnson75 picks the component with the largest least vertex", "algo/johnson_75.rs",
+     "components.iter().min_by_key(|scc| scc.iter().min())", "components.iter().max_by_key(|scc| scc.iter().min())", ["C10"], 0),
+    ("Johnson75 skips unblock after a successful search", "algo/johnson_75.rs",
+     "        if f {\n            self.unblock(v);", "        if f {\n            let _ = self.blocked.remove(&v);", ["C10"], 0),
+    ("Johnson75 start-vertex filter off by one (u > s)", "algo/johnson_75.rs",
+     "self.a.filter_vertices(|u| u >= s);", "self.a.filter_vertices(|u| u > s || (u == s && s + 1 == self.a.order()));", ["C10"], 0),
+    ("Johnson75 unblock forgets the B-lists", "algo/johnson_75.rs",
+     "            while let Some(v) = unsafe { (*b_ptr.add(u)).pop_first() } {\n                self.unblock(v);\n            }",
+     "            unsafe { (*b_ptr.add(u)).clear() };", ["C10"], 0),
     ("AdjacencyList::is_semicomplete skips the last partial chunk of rows", "repr/adjacency_list/mod.rs",
      "                let end = order.min(start + chunk_size);",
      "                let end = if start + chunk_size > order { start } else { start + chunk_size };", ["C12"], 0),
